@@ -33,7 +33,12 @@ impl MapIteratorLock {
 
 impl Finalize for MapIteratorLock {
     fn finalize(&self) {
-        self.0.borrow_mut().data_mut().unlock();
+        // A collection can start while the map is borrowed (any allocation can trigger one), and
+        // a finalizer must not panic: in that case the map just stays locked, which only
+        // delays the removal of its empty entries.
+        if let Ok(mut map) = self.0.try_borrow_mut() {
+            map.data_mut().unlock();
+        }
     }
 }
 
